@@ -292,6 +292,7 @@ def write_evidence(mod, tier, root, agg, wall, selftest, reported, known_matched
         'samples': samples,
         'nontrivial_runs': agg.nontrivial,
         'sweep_units': agg.units,
+        'sweep_units_defined': getattr(agg, 'units_total', agg.units),
         'seeded_runs_submitted': agg.submitted_runs,
         'runs_per_hour': runs_per_hour,
         'seeds': {'root': root, 'derivation': 'run i uses splitmix64(root, property, i); sweep units are enumerated deterministically from the root'},
